@@ -54,6 +54,15 @@ def _compiles(rel: str, text: str) -> bool:
             r = subprocess.run(['clang', '-fsyntax-only', '-I' + sysconfig.get_paths()['include'], str(p)],
                                capture_output=True, text=True)
             return r.returncode == 0
+    if rel.endswith('.fj'):
+        from ..fjfront import lex, Parser
+        try:
+            toks, com = lex(text, rel)
+            pp = Parser(toks, com, rel)
+            pp.block()
+            return pp.peek()[0] == 'EOF'
+        except Exception:
+            return False
     return True
 
 
